@@ -15,7 +15,7 @@ import (
 // one process per value), which also binds the init-time expressions.
 
 type c05Case struct {
-	Kind      string `json:"kind"` // call | clean
+	Kind      string `json:"kind"` // call | clean | emptydir | nodir
 	CI        bool   `json:"ci"`
 	Env       string `json:"env"`           // UPDATE_SNAPS of this process
 	Opt       string `json:"opt,omitempty"` // Update option: "" | true | false
@@ -64,6 +64,12 @@ func c05Gen(c *vfCtx, emit func(c05Case)) {
 				}
 			}
 		}
+		// a snapshot directory (nested) that does not exist yet: a call that may not create leaves no trace, not even a directory
+		for _, opt := range []string{"", "true", "false"} {
+			for _, api := range []string{"snap", "json", "yaml", "ssnap", "sjson"} {
+				emit(c05Case{Kind: "nodir", CI: ci, Env: env, Opt: opt, API: api})
+			}
+		}
 		// an existing but EMPTY snapshot directory that a call addressed without being allowed to create anything: no mode deletes it
 		for _, sort := range []bool{false, true} {
 			for _, opt := range []string{"false", ""} {
@@ -74,6 +80,9 @@ func c05Gen(c *vfCtx, emit func(c05Case)) {
 			for _, stale := range []string{"none", "entry", "file", "both"} {
 				for _, sorted := range []bool{true, false} {
 					emit(c05Case{Kind: "clean", CI: ci, Env: env, Sort: sort, Stale: stale, Sorted: sorted})
+					// the Update option of the calls that precede Clean governs those calls only, never what Clean may do
+					emit(c05Case{Kind: "clean", CI: ci, Env: env, Sort: sort, Stale: stale, Sorted: sorted, Opt: "true"})
+					emit(c05Case{Kind: "clean", CI: ci, Env: env, Sort: sort, Stale: stale, Sorted: sorted, Opt: "false"})
 				}
 			}
 		}
@@ -103,6 +112,10 @@ func c05Run(c *vfCtx, cs c05Case) {
 	}
 	if cs.Kind == "emptydir" {
 		c05EmptyDir(c, cs)
+		return
+	}
+	if cs.Kind == "nodir" {
+		c05NoDir(c, cs)
 		return
 	}
 	dir := c.newWorld()
@@ -229,6 +242,51 @@ func c05Run(c *vfCtx, cs c05Case) {
 	}
 }
 
+// c05NoDir: the addressed snapshot directory (two levels) does not exist. Where the mode allows creation the call adds the snapshot;
+// where it does not, the call fails and the tree is as before: no file, no directory, no mutating file-system call.
+func c05NoDir(c *vfCtx, cs c05Case) {
+	root := c.newWorld()
+	target := filepath.Join(root, "pkg", "__snapshots__")
+	_, neu := c05Vals(cs.API)
+	vfResetState(cs.CI, cs.Env, true)
+	m := vfNewModel(cs.CI, cs.Env)
+	t := &vfT{name: "TestA"}
+	mk := t.mark()
+	ops := vfLogged(func() { vfCall{API: cs.API, Val: neu, Upd: cs.Opt}.do(t, target) })
+	t.end()
+	c.count("transitions", 1)
+	got := t.outcome(mk)
+	want := "failed"
+	if m.canCreate(cs.Opt) {
+		want = "added"
+	}
+	c.outcome("nodir:" + got)
+	if got != want {
+		c.violation("", fmt.Sprintf("cell %+v: the call signalled %s, the mode table says %s %v", cs, got, want, t.errs), cs)
+		return
+	}
+	entries, _ := os.ReadDir(root)
+	c.addSet("states", vfHash(fmt.Sprint(len(entries)), fmt.Sprint(cs)))
+	if want == "failed" {
+		if muts := vfMutOps(ops); len(muts) > 0 {
+			c.violation("", fmt.Sprintf("cell %+v: the call may not write but performed %s", cs, vfShowOps(muts)), cs)
+			return
+		}
+		if len(entries) != 0 {
+			c.violation("", fmt.Sprintf("cell %+v: the call may not write, the snapshot directory did not exist, and afterwards the tree holds %q", cs, entries[0].Name()), cs)
+		}
+		return
+	}
+	vfResetState(true, "", true)
+	t2 := &vfT{name: "TestA"}
+	mk2 := t2.mark()
+	vfCall{API: cs.API, Val: neu}.do(t2, target)
+	t2.end()
+	if o := t2.outcome(mk2); o != "pass" {
+		c.violation("", fmt.Sprintf("cell %+v: after the snapshot was added in a new directory it does not replay: %s %v", cs, o, t2.errs), cs)
+	}
+}
+
 // c05EmptyDir: directories are part of the observable state. Two empty snapshot directories (one nested) are addressed by calls;
 // where the mode forbids creation the calls fail and create nothing, and Clean - in whatever mode - removes no directory.
 func c05EmptyDir(c *vfCtx, cs c05Case) {
@@ -302,7 +360,7 @@ func c05Clean(c *vfCtx, cs c05Case) {
 	vfResetState(cs.CI, cs.Env, true)
 	for _, n := range []string{"TestA", "TestB"} {
 		t := &vfT{name: n}
-		vfCall{API: "snap", Val: "v"}.do(t, dir)
+		vfCall{API: "snap", Val: "v", Upd: cs.Opt}.do(t, dir)
 		t.end()
 		if len(t.errs)+len(t.logs) > 0 {
 			c.harnessErr("C05 clean setup: %v %v", t.errs, t.logs)
